@@ -2,10 +2,12 @@
 import numpy as np
 import gen
 import spec
-from props.common import load_impl, exc_name, rand_keys, UView
+from props.common import load_impl, exc_name, rand_keys, UView, rand_slice
 
 RULE = ("random edit histories (<=12 ops quick, <=40 thorough) of item assignment (incl. negative indices), insert (negative / past-the-end), "
-        "append, extend, delete, pop, slice delete, slicing, reverse over formulas of mixed widths, executed on the real Provenance, on a plain "
+        "append, extend, delete, pop, slice delete, slicing (half of the slices with arbitrary bounds - open, negative, out of range on either side - and "
+        "steps - open, positive, NEGATIVE: p[::-1], p[3::-1], p[::-2], p[2:-100:-1] ...; the result may be empty; the model is asked for the index list "
+        "range(*slice.indices(len)), the reference is the plain list sliced with the same slice), reverse over formulas of mixed widths, executed on the real Provenance, on a plain "
         "Python list of the same formulas, and on the Lean model Ds.Prov (setItem/insert/delItem/...); after EVERY op the length, every row's "
         "truth table (read back through __getitem__ and through query at all assignments) are compared. Non-trivial = the history contains a "
         "width change in each direction (narrower and wider than stored) and at least one deletion; distinct = distinct op sequences.")
@@ -17,6 +19,11 @@ def widths(e):
     if "conj" in e:
         return (1, len(e["conj"]))
     return (len(e["disj"]), max(len(c) for c in e["disj"]))
+
+
+def _sl(op):
+    """the slice object of a slice / delslice op (step 's' optional; bounds may be None, negative or out of range)"""
+    return slice(op["a"], op["b"], op.get("s"))
 
 
 def run_history(ctx, I, n_units, init, ops):
@@ -54,9 +61,9 @@ def run_history(ctx, I, n_units, init, ops):
             elif kind == "pop":
                 ref.pop()
             elif kind == "delslice":
-                del ref[op["a"]:op["b"]]
+                del ref[_sl(op)]
             elif kind == "slice":
-                ref = ref[op["a"]:op["b"]]
+                ref = ref[_sl(op)]
             elif kind == "reverse":
                 ref.reverse()
         except IndexError:
@@ -76,9 +83,9 @@ def run_history(ctx, I, n_units, init, ops):
             elif kind == "pop":
                 prov.pop()
             elif kind == "delslice":
-                del prov[op["a"]:op["b"]]
+                del prov[_sl(op)]
             elif kind == "slice":
-                prov = prov[op["a"]:op["b"]]
+                prov = prov[_sl(op)]
             elif kind == "reverse":
                 prov.reverse()
         except Exception as e:  # noqa
@@ -94,9 +101,9 @@ def run_history(ctx, I, n_units, init, ops):
         elif kind == "pop":
             mops.append({"op": "del", "i": -1})
         elif kind == "delslice":
-            mops.append({"op": "delmany", "idx": list(range(*slice(op["a"], op["b"]).indices(op["_len"])))})
+            mops.append({"op": "delmany", "idx": list(range(*_sl(op).indices(op["_len"])))})
         elif kind == "slice":
-            mops.append({"op": "select", "idx": list(range(*slice(op["a"], op["b"]).indices(op["_len"])))})
+            mops.append({"op": "select", "idx": list(range(*_sl(op).indices(op["_len"])))})
         elif kind == "reverse":
             mops.append({"op": "select", "idx": list(range(op["_len"] - 1, -1, -1))})
         mops.append({"op": "table"})
@@ -163,6 +170,17 @@ def gen_history(rng, n_units, max_ops):
         elif r < 0.80 and ln > 1:
             ops.append({"op": "pop"})
             ln -= 1
+        elif r < 0.92 and ln > 2 and rng.random() < 0.5:
+            # a slice as a caller may write it: open / negative / out-of-range bounds, positive and negative steps
+            sl = rand_slice(rng, ln)
+            hit = len(range(*sl.indices(ln)))
+            if r < 0.86:
+                if hit < ln:
+                    ops.append({"op": "delslice", "a": sl.start, "b": sl.stop, "s": sl.step, "_len": ln})
+                    ln -= hit
+            else:
+                ops.append({"op": "slice", "a": sl.start, "b": sl.stop, "s": sl.step, "_len": ln})
+                ln = hit
         elif r < 0.86 and ln > 2:
             a = rng.randrange(0, ln)
             b = rng.randrange(a, ln + 1)
@@ -203,9 +221,9 @@ def shrink(ctx, I, n_units, init, ops):
                 elif k == "pop":
                     ref.pop()
                 elif k == "delslice":
-                    del ref[op["a"]:op["b"]]
+                    del ref[_sl(op)]
                 elif k == "slice":
-                    ref = ref[op["a"]:op["b"]]
+                    ref = ref[_sl(op)]
                 elif k == "reverse":
                     ref.reverse()
             except IndexError:
